@@ -7,6 +7,7 @@ E2: semantic probes through HiGHS: for fixed admissible factor values the min an
 import math
 from fractions import Fraction as F
 import common, lpdump
+import gencheck12
 
 LEVEL = "proof"
 EXPLANATION = ("Props/C12.v: exactness theorems for the generated rows of the three helpers (with bridge lemmas from row lists to "
@@ -378,3 +379,4 @@ def run(ctx):
         ctx.case(["gv", n, ask], nontrivial=True); ctx.count("E4_get_values", "cases")
         if set(got) != {("k", j) for j in ask} or any(abs(got[("k", j)] - (j + 1)) > 1e-6 for j in ask):
             ctx.report("get_values returned other variables/values than asked", {"n": n, "asked": ask, "got": str(got)}, concrete=True)
+    gencheck12.run_generated_rows(ctx)      # generated-model tie of the three helpers (coq/gen_proofs)
